@@ -65,6 +65,9 @@ def oracle(chk, o, m):
     relayed = sum(o["bytes"].values()) > 0
     chk.case(nontrivial_key=("e2e", label, caller and caller["elevated"], o["req"]["target"], m["kind"]))
     chk.count(f"e2e_{label}_{'elev' if caller and caller['elevated'] else 'nonelev'}_{m['kind']}{m.get('status','')}")
+    if label == "direct-after-elevated" and relayed:
+        chk.violation("a connection without a record of its own was relayed to a root-only endpoint as the elevated caller whose "
+                      "source port it re-used", pipe.Runner.describe(None, o), expected="no upstream bytes", observed=o["bytes"])
     root_only = label in ("ws", "ga") and caller is not None and not caller["elevated"]
     if (root_only or label == "self") and relayed:
         chk.violation("request relayed although caller is not elevated on a root-only endpoint / destination is the proxy itself",
@@ -97,7 +100,7 @@ def run(chk):
             case = pipegen.gen_case(rng, callers, st, dest_label=label)
             # two thirds non-elevated callers, with rules that often grant them
             if rng.chance(2, 3):
-                case["caller"] = callers.caller(rng.pick([1000, 1001, 1002]), case["caller"]["proc"], False)
+                case["caller"] = callers.caller(rng.pick([1000, 1001, 1002, 1, 999, 998, 65534, 2147483648]), case["caller"]["proc"], False)
                 if rng.chance(1, 5):
                     # what the kernel side writes when it could not tell (an error status), or any value that is not 1
                     case["is_admin_raw"] = rng.pick([-1, 2, 7, -2147483648])
@@ -115,6 +118,37 @@ def run(chk):
                     b["env"][ep] = None          # no rule set at all: only the root-only guard stands between the caller and the host
                 chk.count("same_pid_elevated_then_not")
                 runner.run_case(b)
+            if i % 10 == 7:
+                # an elevated caller's connection to a root-only endpoint, then a connection made straight to the listener from the
+                # same source port with no record of its own (any local process can do that): it is nobody's, least of all root's
+                a = pipegen.gen_case(rng, callers, st, dest_label=rng.pick(["ws", "ga"]))
+                a["caller"] = callers.caller(0, a["caller"]["proc"], True)
+                for ep in ("ws", "hostga"):
+                    a["env"][ep] = None
+                o1 = runner.run_case(a, keep_conn=True)
+                port = o1["conn"].port
+                o1["conn"].close(rst=True)
+                o1["conn"] = None
+                b = pipegen.gen_case(rng, callers, st, dest_label=a["label"])
+                b["env"] = dict(a["env"])
+                b["caller"], b["dest"], b["srcport"], b["label"] = None, None, port, "direct-after-elevated"
+                chk.count("direct_connection_after_elevated_on_same_port")
+                try:
+                    runner.run_case(b)
+                except OSError:
+                    chk.count("port_reuse_not_possible")
+        # every non-root user id the generator knows (system accounts, nobody, a high id), not elevated, on both root-only endpoints
+        # with no rule set at all
+        for uid in sorted(u for u in callers.users if u != 0):
+            for label in ("ws", "ga"):
+                c = pipegen.gen_case(rng, callers, st, dest_label=label)
+                c["caller"] = callers.caller(uid, "curl", False)
+                for ep in ("ws", "hostga"):
+                    c["env"][ep] = None
+                if c["req"]["target"] == "/provision":
+                    c["req"]["target"] = "/machine?comp=goalstate"
+                chk.count("every_user_id_not_elevated")
+                runner.run_case(c)
         runner.finish(oracle)
         chk.sample(runner.describe(runner.observations[0]))
     finally:
